@@ -632,10 +632,10 @@ pub fn run(tier: Tier, seed: u64) -> i32 {
         ..Default::default()
     };
     rep.add("(a) leak core under schedule exploration", explore("C03", leak_core(tier), p, &known));
-    let p = Params { max_dev: if q { 0 } else { 1 }, seeds: vec![seed], time_limit: Duration::from_secs(if q { 10 } else { 300 }), ..Default::default() };
+    let p = Params { max_dev: 1, seeds: vec![seed], time_limit: Duration::from_secs(if q { 10 } else { 300 }), ..Default::default() };
     rep.add("(b) connect(k ports) x receive_buffer 4..=17 x residue 0..7", explore("C03", connect_scenarios(tier), p, &known));
     let p = Params {
-        max_dev: if q { 1 } else { 2 },
+        max_dev: 2,
         seeds: vec![seed],
         time_limit: Duration::from_secs(if q { 10 } else { 300 }),
         ..Default::default()
